@@ -213,7 +213,7 @@ def run(prog, chk):
             continue
         m = re.match(r"^(\w+)\.length\(\)$", q.no_casts(f.r(a[2])))
         if m:
-            cmps.append((c, m.group(1)))
+            cmps.append((c, q.alias_root(f, m.group(1))))     # through the parameter of an inlined helper
     if not cmps:
         chk.bad("C19.f", f, "no-prefix-comparison", "%s:%s" % (f.file, f.line), "getRelativePath no longer compares the simplified target against a prefix of the simplified source")
     for c, var in cmps:
